@@ -188,6 +188,9 @@ fn encode_parallel(
     let result: Result<Vec<Vec<u8>>, EncodingError> = (0..split.len())
         .into_par_iter()
         .map(|fragment_index| -> Result<Vec<u8>, EncodingError> {
+            #[cfg(dds_verif)]
+            crate::verif_hooks::fragment_event("start", fragment_index);
+
             let fragment = split.get(fragment_index).expect("invalid fragment index");
             parallel_progress.check_cancelled()?;
 
@@ -205,6 +208,8 @@ fn encode_parallel(
             encode(&mut buffer, fragment, format, None, &options)?;
 
             parallel_progress.check_cancelled()?;
+            #[cfg(dds_verif)]
+            crate::verif_hooks::fragment_event("submit", fragment_index);
             parallel_progress.submit(fragment.height() as u64);
 
             debug_assert_eq!(buffer.len(), bytes);
